@@ -86,6 +86,9 @@ func runC03(r *Run) {
 		{`both(trb(f), trb(b))`, true}, {`lazyif(trb(b), lazyif(trb(f), tr(1), tr(2)), tr(3))`, true}, {`[tr(1), tr(2)][tr(0)]`, true}, {`{p: tr(1), q: trs("a")}.p`, true},
 		{`[trs("k"): tr(1), trs("j"): tr(2)]`, true}, {`boom(1) + tr(2)`, true}, {`tr(1) + boom(2)`, true}, {`if(b, 1, boom(2))`, true}, {`ident(ident(o2)).p`, true}, {`area({h: 2, w: 3})`, true},
 		{`pick([], 1)`, true}, {`max([]) + min([])`, false}, {`len("héllo") + len(xs) + len(m)`, false}, {`get(mb, 0) + get(mz, 7)`, false}, {`-0 == 0`, false}, {`0.1 + 0.2 == 0.3`, false},
+		{`lazyif(b, lazyif(b, tr(x), tr(y)), tr(3)) + 100`, true}, {`[lazyif(b, lazyif(b, tr(10), tr(20)), tr(30)), tr(7)]`, true}, {`lazyif(b, lazyif(b, x, y) + 1, 3) + 100`, true},
+		{`lazyif(b, lazyif(f, tr(x), tr(y)) * 2, tr(3)) - 50`, true}, {`both(both(trb(b), trb(b)), trb(f)) || trb(b)`, true}, {`if(both(b, both(b, trb(b))), tr(1), tr(2)) + tr(3)`, true},
+		{`lazyif(both(b, b), lazyif(both(b, f), 1, 2), 3) * 10 + lazyif(f, 1, lazyif(b, 5, 6))`, true}, {`[tr(1), tr(2)][tr(3) - 3]`, true}, {`[[1]][3][[2][7]]`, false},
 		{`1e-10 == 0`, false}, {`2 ^ 0.5`, false}, {`round(-2.5)`, false}, {`t0 - t1`, false}, {`t0 == strtotime("2020-01-02 03:04:05")`, false}, {`'2020-01-02 03:04:05' == t0`, false},
 	}
 	for _, c := range corpus {
